@@ -115,7 +115,10 @@ func c10ScanSpool(dir string) string {
 	return ""
 }
 
+var c10Outcome string // observation class of the last run (vacuity guard)
+
 func c10Run(scratch string, c c10Case) (string, string) {
+	c10Outcome = "not-accepted-by-the-header-parser"
 	dir, err := os.MkdirTemp(scratch, "c10-")
 	if err != nil {
 		return "HARNESS:tmpdir", err.Error()
@@ -288,6 +291,7 @@ func c10Run(scratch string, c c10Case) (string, string) {
 	if fs := qhSpoolFiles(dir); len(fs) != 0 {
 		return "C10:spool-not-empty", fmt.Sprint(fs)
 	}
+	c10Outcome = "history=" + c.History + ": every attempt compared equal"
 	return "", ""
 }
 
@@ -385,6 +389,8 @@ func TestVerifC10(t *testing.T) {
 		}
 		if fp != "" {
 			r.Violation(fp, fmt.Sprintf("%s\ncase: header=%q body=%s env=%+v history=%s", detail, c.Header, c.Body, c.Env, c.History), c)
+		} else {
+			r.Outcome(c10Outcome)
 		}
 		if idx%2003 == 0 {
 			r.Sample(c)
